@@ -178,7 +178,7 @@ prop("C11", [tt.r_range_end, tt.r_leaf_skip_and_filter, tt.r_filter_complete, tt
      ["R-RANGE-END", "R-FILTER-GUARD", "R-LEAF-SKIP", "R-PARTIAL-SAME", "R-LEAFPTR (first-id clause only: the pointers of library-written archives carry the id the leaf skip compares)"],
      [RUNTIME])
 
-prop("C12", [rt.r_twin, rt.r_factory, rd.r_dir_twins, rr.r_seek_after_codec, rt.r_finalise_async, tt.r_depth_twins],
+prop("C12", [rt.r_twin, rt.r_factory, rd.r_dir_twins, rr.r_seek_after_codec, rt.r_finalise_async, tt.r_depth_twins, rt.r_meta0_twins],
      "Sibling agreement on code the test suite never compiles: every sync/async pair instantiated from one duplicate_item template must be isomorphic after making "
      "`?`, .await and async blocks transparent and mapping callees through the twin table (Read↔AsyncReadExt, flush↔close for codec writers, read_varint↔_async, local "
      "f↔f_async; integer type arguments must agree); hand-written pairs must have the same stream-effect/parser skeleton; the four codec factories must agree per variant.",
